@@ -174,11 +174,11 @@ func (g *Graph) PathTo(s string) (init string, path []int, ok bool) {
 
 // Report is the JSON object every harness subcommand prints as its last stdout line.
 type Report struct {
-	Evaluations int           `json:"evaluations"`
-	Distinct    int           `json:"distinct"`
-	Violations  []Violation   `json:"violations"`
-	Samples     []interface{} `json:"samples"`
-	Notes       []string      `json:"notes,omitempty"`
+	Evaluations int                    `json:"evaluations"`
+	Distinct    int                    `json:"distinct"`
+	Violations  []Violation            `json:"violations"`
+	Samples     []interface{}          `json:"samples"`
+	Notes       []string               `json:"notes,omitempty"`
 	Extra       map[string]interface{} `json:"extra,omitempty"`
 }
 
